@@ -44,6 +44,11 @@ type rpRun struct {
 	ids     map[string]int
 	cancels map[int]context.CancelFunc
 	ctxs    map[int]context.Context
+	// requests end either by an explicit cancel or (every second behaviour) by a deadline that
+	// expires at the moment the specification cancels them
+	byDeadline bool
+	deadlines  map[int]time.Time
+	cancelRank map[int]int // order in which the behaviour cancels its requests
 }
 
 func (r *rpRun) violate(kind, detail string, exp, got interface{}) {
@@ -71,6 +76,7 @@ func (r *rpRun) setup(tag string) error {
 	r.nodes = map[string]*sim.Node{}
 	r.entries, r.ids = map[int]ipfslog.Entry{}, map[string]int{}
 	r.cancels, r.ctxs = map[int]context.CancelFunc{}, map[int]context.Context{}
+	r.deadlines = map[int]time.Time{}
 	// roles are assigned in the byte order of the identities' public keys, so that the
 	// tie-break order of concurrent entries (and with it the order of links) is fixed
 	type cand struct {
@@ -292,7 +298,15 @@ func (r *rpRun) apply(st Step, prev map[string]interface{}) error {
 	case "Init":
 	case "Request":
 		q := asInt(st.Args[0])
-		ctx, cancel := context.WithCancel(context.WithValue(context.Background(), reqKey{}, q))
+		var ctx context.Context
+		var cancel context.CancelFunc
+		if r.byDeadline && q != r.in.NReq {
+			dl := time.Now().Add(deadlineBudget * time.Duration(1+r.cancelRank[q]))
+			ctx, cancel = context.WithDeadline(context.WithValue(context.Background(), reqKey{}, q), dl)
+			r.deadlines[q] = dl
+		} else {
+			ctx, cancel = context.WithCancel(context.WithValue(context.Background(), reqKey{}, q))
+		}
 		if c, ok := r.ctxs[q]; ok { // cancelled before it was issued
 			ctx = c
 			cancel()
@@ -396,8 +410,18 @@ func (r *rpRun) apply(st Step, prev map[string]interface{}) error {
 		}
 	case "Cancel":
 		q := asInt(st.Args[0])
-		if c, ok := r.cancels[q]; ok {
+		if dl, ok := r.deadlines[q]; ok {
+			// the request's own deadline passes now
+			if time.Now().After(dl) {
+				r.res.note("%s step %d: the deadline of request %d passed before the specification's Cancel", r.bid, r.step, q)
+				return errDriftR
+			}
+			time.Sleep(time.Until(dl) + 2*time.Millisecond)
+		} else if c, ok := r.cancels[q]; ok {
 			c()
+		} else if r.byDeadline {
+			ctx, cancel := context.WithDeadline(context.WithValue(context.Background(), reqKey{}, q), time.Now().Add(-time.Second))
+			r.ctxs[q], r.cancels[q] = ctx, cancel
 		} else {
 			ctx, cancel := context.WithCancel(context.WithValue(context.Background(), reqKey{}, q))
 			cancel()
@@ -453,7 +477,16 @@ func (r *rpRun) reach(heads []int) []int {
 	return out
 }
 
+const deadlineBudget = 600 * time.Millisecond
+
 func (r *rpRun) run(b Behaviour, idx int) {
+	r.byDeadline = idx%2 == 1
+	r.cancelRank = map[int]int{}
+	for _, st := range b.Steps {
+		if st.Action == "Cancel" {
+			r.cancelRank[asInt(st.Args[0])] = len(r.cancelRank)
+		}
+	}
 	mutant := false
 	for _, m := range r.in.Mutant {
 		mutant = mutant || m == b.ID
